@@ -27,6 +27,7 @@ def run(idx, rep, tier):
     frame.r_frame_contracts(idx, rep, fr_rets, ("aabb",), floor=8, unknown_ceiling=8)
     frame.r_worldaabb(idx, rep)
     colliders.r_coherence(idx, rep, relevant_to="aabb")      # 'every collider' includes colliders that were moved with update_pose
+    colliders.r_stalekey(idx, rep)
     safediv.r_sqrtdomain(idx, rep, modules=["distance3d.containment"], floor=2, unknown_ceiling=2, sqrt_calls=("np.sqrt", "math.sqrt"))
     safediv.r_roundtrip(idx, rep, modules=["distance3d.containment"], floor=1)
     hydro.r_invalidate(idx, rep, relevant_to="aabb", floor=2)      # RigidBody.aabb() is the root box of a cached tree
